@@ -222,8 +222,8 @@ func LiteSchema(l *lite.DB) ([]LiteTable, error) {
 		}
 		for _, c := range xi {
 			// cid name type notnull dflt pk hidden
-			if c[6].(int64) != 0 {
-				continue
+			if c[6].(int64) == 1 {
+				continue // hidden column of a virtual table; generated columns (2, 3) are ordinary columns for SELECT *
 			}
 			t.Cols = append(t.Cols, c[1].(string))
 			t.ColTypes = append(t.ColTypes, c[2].(string))
